@@ -106,7 +106,7 @@ def decide(prop, mod, m, known):
     known_keys = known.get(prop, {})
     new, seen_known = {}, {}
     for ck, n in m["devcount"].items():
-        clause, key = ck.split("|", 1)
+        clause, key = ck.split("\x1f", 1)
         if key and key in known_keys:
             seen_known[key] = seen_known.get(key, 0) + n
         else:
@@ -119,7 +119,7 @@ def write_replays(prop, m, new, tier, seed):
     head, digest = env.repo_fingerprint()
     paths = {}
     for d in m["devs"]:
-        ck = "%s|%s" % (d["clause"], d["key"] if d["key"] else "")
+        ck = "%s\x1f%s" % (d["clause"], d["key"] if d["key"] else "")
         if ck not in new or ck in paths:
             continue
         body = {"property": prop, "clause": d["clause"], "key": d["key"],
@@ -247,7 +247,7 @@ def main(argv=None):
             continue
         print("VIOLATION property=%s replay=%s" % (prop, p))
         d = next(x for x in m["devs"]
-                 if "%s|%s" % (x["clause"], x["key"] or "") == ck)
+                 if "%s\x1f%s" % (x["clause"], x["key"] or "") == ck)
         print("  clause=%s key=%s count=%d detail=%s"
               % (d["clause"], d["key"], n, json.dumps(d["detail"])[:500]))
         nlines += 1
@@ -267,8 +267,8 @@ def main(argv=None):
     clause_table = {}
     for k, v in sorted(m["clauses"].items()):
         kn = sum(n for ck, n in m["devcount"].items()
-                 if ck.split("|", 1)[0] == k and ck not in new)
-        nw = sum(n for ck, n in new.items() if ck.split("|", 1)[0] == k)
+                 if ck.split("\x1f", 1)[0] == k and ck not in new)
+        nw = sum(n for ck, n in new.items() if ck.split("\x1f", 1)[0] == k)
         clause_table[k] = {"checked": v[0], "violated_new": nw, "known": kn}
     ev = {
         "property_id": prop, "tier": tier, "seed": seed,
